@@ -1,0 +1,12 @@
+//go:build !verif
+
+// Package verifhook provides observation and delay points used by the external
+// verification harness. Without the `verif` build tag every function is an
+// empty, inlinable no-op.
+package verifhook
+
+// Event records a named event with key/value attributes (no-op in this build).
+func Event(name string, kv ...string) {}
+
+// Point records an event and evaluates a delay point (no-op in this build).
+func Point(name string) {}
